@@ -20,6 +20,16 @@ and writes
     coq/theories/Gen/C20_Builders.v  the builders as Gallina functions
                                      `(string -> cfg) -> res cfg` over SV.C20.CfgTree
 
+FRESH OBJECT PER CALL.  The generated builders are closed Gallina functions of their
+arguments: a name that is not a parameter or a local assigned on every path is rejected
+(`Unsupported`), so a builder cannot read module-level (mutable) state, and module-level
+statements other than imports / classes / functions are rejected in the config modules.
+The one remaining channel for shared state is a schema default written as a mutable
+literal or an instance instead of a factory (attrs hands the same object to every
+instance); such fields are listed in the summary (`mutable_literal_defaults`) and the
+check compares the list with what the implementation is seen to share in call - mutate -
+call sequences.
+
 FAIL-CLOSED: any AST shape outside the recognised fragment raises `Unsupported`
 with the source location; nothing is written in that case (stale files are
 removed) and the check treats the tie as broken.
@@ -690,7 +700,7 @@ class Translator:
         self.methods: dict[tuple, dict] = {}
         self.schema_defs: list[str] = []          # Coq text, in order
         self.builder_defs: list[str] = []
-        self.summary = {"classes": {}, "builders": {}, "pinned": {}}
+        self.summary = {"classes": {}, "builders": {}, "pinned": {}, "mutable_literal_defaults": []}
         self.module_funcs: dict[str, tuple] = {}  # name -> (file, FunctionDef) available for translation
         self.class_nodes: dict[str, tuple] = {}
         self.version = None
@@ -933,8 +943,14 @@ class Translator:
                     fail(file, v, "field() without default/factory")
             else:
                 default = self.default_code(file, v)
+            # a default given as a list / dict / set literal or an instance (not through a factory) is ONE
+            # object handed to every instance: module-level mutable state the tree model does not have
+            dnode = v
+            if isinstance(v, ast.Call) and isinstance(v.func, ast.Name) and v.func.id == "field":
+                dnode = next((kw.value for kw in v.keywords if kw.arg == "default"), None)
+            shared = isinstance(dnode, (ast.List, ast.Dict, ast.Set, ast.Call, ast.ListComp, ast.DictComp))
             fields.append({"name": fname, "ty": ty, "opt": opt, "default": default, "validator": validator,
-                           "validated": validator != "no_validator", "line": n.lineno})
+                           "validated": validator != "no_validator", "line": n.lineno, "shared_literal": shared})
         self.classes[name] = {"bases": bases, "oneof": oneof, "fields": fields}
         self.class_order.append(name)
         fl = ";\n    ".join(
@@ -943,6 +959,7 @@ class Translator:
         self.schema_defs.append(
             f"(* {file}:{cd.lineno} *)\nDefinition cls_{name} : class_def :=\n  mkClass {cstr(name)} "
             f"[{'; '.join(cstr(b) for b in bases)}] {'true' if oneof else 'false'}\n   [{fl}].\n")
+        self.summary["mutable_literal_defaults"] += [[name, fd["name"]] for fd in fields if fd.get("shared_literal")]
         self.summary["classes"][name] = {
             "bases": bases, "oneof": oneof, "line": cd.lineno,
             "fields": [{"name": fd["name"], "ty": fd["ty"], "opt": fd["opt"], "validated": fd["validated"]}
